@@ -4,6 +4,7 @@ import (
 	"fmt"
 	"go/constant"
 	"go/types"
+	"os"
 	"strings"
 
 	"golang.org/x/tools/go/ssa"
@@ -209,6 +210,16 @@ func summarise(tr *decTrace) *opSummary {
 			cp.Args[i] = simplifyUnder(a, lits)
 		}
 		s.Deliver = &cp
+		if os.Getenv("IVGSA_DEBUG_DELIVER") != "" && tr.Key == 0xc0 {
+			for _, l := range lits {
+				fmt.Fprintln(os.Stderr, "LIT", l.Key())
+			}
+			for i, a := range cp.Args {
+				if a != nil {
+					fmt.Fprintln(os.Stderr, "ARG", i, a.Key())
+				}
+			}
+		}
 	}
 	s.Method = destMethodName(dels[0].Callee)
 	if inner, ok := inRep(dels[0]); !ok || len(inner) != 0 {
